@@ -6,6 +6,7 @@ from typing import Dict, List, Optional, Set
 
 from .. import otspec
 from ..cfg import cfg_of
+from ..dataflow import expr_closure
 from ..guards import guard_facts
 from ..model import (AnalysisError, Model, calls_in, callee_tail, find_calls, kwarg, names_in, norm, short, walk_body)
 from ..paintmodel import extract
@@ -271,3 +272,62 @@ def r13e(model: Model, rr: RuleResult):
         rr.ok("gradients are defined in the document's own <defs>")
     else:
         rr.bad(fi, fi.node, "svg_defs is not the <defs> of the document being built", construct="_colr_v1_glyph_to_svg: svg_defs")
+
+
+GRADIENT_GEOMETRY = {"PaintLinearGradient": (("p0", "p1", "p2"), ()), "PaintRadialGradient": (("c0", "c1"), ("r0", "r1"))}
+
+
+def gradient_geometry_rule(model: Model, rr: RuleResult):
+    """Wherever a gradient is re-expressed in another frame (`dataclasses.replace(g, ...)` with mapped coordinates), every geometric
+    field is mapped: a field left out, or reset to None, keeps (or re-derives) its old-frame value."""
+    sites = [("svg", "_map_gradient_coordinates", "paint"), ("paint", "PaintLinearGradient.apply_transform", "self"),
+             ("paint", "PaintRadialGradient.apply_transform", "self")]
+    seen = 0
+    for mod, qn, base in sites:
+        fi = model.func(mod, qn)
+        cfg = cfg_of(fi)
+        for c in calls_in(fi):
+            if norm(c.func) != "dataclasses.replace" or not c.args or norm(c.args[0]) != base:
+                continue
+            kws = {k.arg: k.value for k in c.keywords if k.arg}
+            cls = None
+            if qn.startswith("Paint"):
+                cls = qn.split(".")[0]
+            else:
+                facts = [norm(e) for e, pol in guard_facts(cfg, cfg.node_for(c)) if pol]
+                for cand in GRADIENT_GEOMETRY:
+                    if any(f"isinstance({base}, {cand})" == f for f in facts):
+                        cls = cand
+            if cls is None:
+                raise AnalysisError(f"{qn}: cannot tell which gradient class {short(c, 60)} rebuilds")
+            pts, radii = GRADIENT_GEOMETRY[cls]
+            seen += 1
+            for f in pts:
+                v = kws.get(f)
+                ok = False
+                if v is not None:
+                    _, exprs = expr_closure(cfg, cfg.node_for(c), v)
+                    ok = any(isinstance(n, ast.Call) and callee_tail(n) == "map_point" and n.args and norm(n.args[0]) == f"{base}.{f}" for e in exprs for n in ast.walk(e))
+                if ok:
+                    rr.ok(f"{qn}: {cls}.{f} <- map_point({base}.{f})")
+                else:
+                    rr.bad(fi, c, f"{cls}.{f} is {'not mapped' if v is None else 'set to ' + short(v)} when the gradient is moved to another frame: "
+                           f"{'p2 is then re-derived perpendicular to p0->p1, which a non-conformal map does not preserve' if f == 'p2' else 'the point stays in the old frame'}",
+                           construct=f"{qn}: {f}={short(v) if v is not None else '<missing>'}")
+            for f in radii:
+                v = kws.get(f)
+                ok = False
+                if v is not None:
+                    _, exprs = expr_closure(cfg, cfg.node_for(c), v)
+                    ok = any(isinstance(n, ast.Attribute) and norm(n) == f"{base}.{f}" for e in exprs for n in ast.walk(e)) and not (isinstance(v, ast.Attribute) and norm(v) == f"{base}.{f}")
+                if ok:
+                    rr.ok(f"{qn}: {cls}.{f} rescaled from {base}.{f}")
+                else:
+                    rr.bad(fi, c, f"{cls}.{f} is not rescaled when the gradient is moved to another frame", construct=f"{qn}: {f}={short(v) if v is not None else '<missing>'}")
+    if seen < 4:
+        raise AnalysisError(f"gradient geometry: only {seen} re-framing sites found")
+
+
+@RULES.rule("C13", "R13f", "re-framing a gradient maps every geometric field (p0 p1 p2 / c0 c1 r0 r1)", floor=12)
+def r13f(model: Model, rr: RuleResult):
+    gradient_geometry_rule(model, rr)
